@@ -51,6 +51,15 @@ pub fn expand_of(x: usize) -> ExpandMark {
     }
 }
 
+/// counter-heavy variant: half counters, the rest ints and strings
+pub fn scalar_heavy(c: u16, n: i64, d: u16) -> ScalarValue {
+    match sel(c, 8) {
+        0..=3 => ScalarValue::counter(n),
+        4 | 5 => ScalarValue::Int(n),
+        _ => ScalarValue::Str(FRAGS[sel(d, FRAGS.len())].into()),
+    }
+}
+
 pub fn scalar(c: u16, n: i64, d: u16) -> ScalarValue {
     match sel(c, 14) {
         0..=3 => ScalarValue::Int(n),
@@ -81,6 +90,8 @@ pub struct Opts {
     pub avoid: Vec<String>,
     /// splice_text may insert a lone combining accent (only checks that classify the grapheme known finding enable it)
     pub lone_combining: bool,
+    /// registers mix counters and plain values (COUNTER preset)
+    pub counter_heavy: bool,
 }
 
 #[derive(Clone, Debug)]
@@ -155,6 +166,9 @@ impl Interp {
             trace: vec![],
             created: vec![],
         };
+        if p.flavor == 1 {
+            it.opts.counter_heavy = true;
+        }
         if it.opts.nkeys == 0 {
             it.opts.nkeys = if p.nkeys > 0 { p.nkeys as usize } else { KEYS.len() };
         }
@@ -277,7 +291,7 @@ impl Interp {
             PUT => {
                 if let Some(o) = self.pick_obj(r, &[ObjType::Map, ObjType::Table], s.a) {
                     let k = self.key(s.b);
-                    let v = scalar(s.c, s.n, s.d);
+                    let v = if self.opts.counter_heavy { scalar_heavy(s.c, s.n, s.d) } else { scalar(s.c, s.n, s.d) };
                     self.note_noop_resolution(r, &o, k, &v);
                     done!(self.reps[r].doc.put(&o, k, v));
                 }
@@ -334,7 +348,7 @@ impl Interp {
                 if let Some(o) = self.pick_obj(r, &[ObjType::List], s.a) {
                     let len = self.reps[r].doc.length(&o);
                     if len > 0 {
-                        let v = scalar(s.c, s.n, s.d);
+                        let v = if self.opts.counter_heavy { scalar_heavy(s.c, s.n, s.d) } else { scalar(s.c, s.n, s.d) };
                         self.note_noop_resolution(r, &o, sel(s.b, len), &v);
                         done!(self.reps[r].doc.put(&o, sel(s.b, len), v));
                     }
@@ -415,6 +429,13 @@ impl Interp {
                 }
             }
             BLOCK => {
+                if self.reps[r].isolated.is_some() {
+                    // known finding (C29 family; recorded under C37 as the fork_at / BatchApply `entry.is_empty()` panic):
+                    // a block inserted in an isolated transaction next to marks hidden by the scope leaves an op order
+                    // that later replays (fork, fork_at) assert on. Excluded by construction and counted.
+                    self.class("skipped:block-under-isolation");
+                    return out;
+                }
                 if let Some(o) = self.pick_obj(r, &[ObjType::Text], s.a) {
                     let b = bounds(&self.reps[r].doc, &o);
                     let i = sel(s.b, b.len());
